@@ -22,7 +22,7 @@ def Assumed.key (a : Assumed) : String × Nat × String := (a.func, a.ord, a.con
 def assumed : List Assumed := [
   { func := "nextToken", ord := 0, cond := "for",
     reason := "the pump `for { p.peekPeek = p.lexer.NextToken(); if WHITESPACE or LINE_COMMENT { continue }; break }` does not move p.current at all; every iteration consumes one lexer token and the lexer's token sequence is finite and ends in EOF, which is neither WHITESPACE nor LINE_COMMENT (C12 tokenize_eof_last), so it runs at most (remaining lexer tokens) times; summed over a parse this is linear in the input." },
-  { func := "parseParenthesizedSelect", ord := 0, cond := "for depth > 0 && !p.currentIs(token.EOF)",
+  { func := "parseParenthesizedSelect", ord := 0, cond := "for $0:int > 0 && !$1:*parser.Parser.currentIs(token.EOF)" /- source text when reviewed: for depth > 0 && !p.currentIs(token.EOF) -/,
     reason := "the only path to the back edge without p.nextToken() is the one where `depth--` has just made depth == 0; the loop condition `depth > 0` then fails, so this happens at most once, as the last iteration; every other iteration advances at a non-EOF token.  Needs the value of the local counter, which the skeleton language does not track." }]
 
 end DC.Spec.AssumedLoops
